@@ -95,8 +95,8 @@ Definition enc_iset (s : ixstate) (f : iset_spec) : bytes :=
 
 Definition learn_iset (s : ixstate) (f : iset_spec) : ixstate :=
   match f with
-  | STemplate t => {| ix_t := insert (it_id t) t (ix_t s); ix_o := ix_o s |}
-  | SOTemplate t => {| ix_t := ix_t s; ix_o := insert (io_id t) t (ix_o s) |}
+  | STemplate t => {| ix_t := insert (it_id t) t (ix_t s); ix_o := remove (it_id t) (ix_o s) |}
+  | SOTemplate t => {| ix_t := remove (io_id t) (ix_t s); ix_o := insert (io_id t) t (ix_o s) |}
   | SData _ _ _ => s
   end.
 
